@@ -89,6 +89,11 @@ class Imp:
 
     async def aclose(self) -> None:
         await self.pubsub.close()
+        if self._machine.state == 'running':
+            # Wait here rather than in the trigger `close`. The trigger
+            # `finish`, executed in the task of the run, cancels the other
+            # ongoing triggers unless they are of the task that called run().
+            await self._callback.wait_for_run_finish()
         await self._machine.aclose()
 
     async def __aenter__(self) -> 'Imp':
